@@ -403,6 +403,25 @@ def compare(ctx, obj, mm, what="container"):
             ctx.fail("eq_vs_rebuilt", "%s == container rebuilt from the model is %s/%s" % (what, e1, e2))
     else:
         ctx.note("eq_skipped_nan_coord")
+    # '==' is what "equals" is read with: it must tell apart, in both directions, a container that differs from the
+    # model only by the presence of a box or of a bond list
+    _EQ_TICK[0] += 1
+    if _EQ_TICK[0] % 3 == 0:
+        other = build_real(mm)
+        if _EQ_TICK[0] % 2 == 0 and mm.bonds is not None:
+            other.bonds, diff = None, "lacks the bond list"
+        elif mm.box is not None:
+            other.box, diff = None, "lacks the box"
+        else:
+            other.box = np.tile(np.eye(3, dtype=np.float32) * 7, (mm.m, 1, 1)) if mm.kind == "stack" else np.eye(3, dtype=np.float32) * 7
+            diff = "has a box"
+        ctx.oracle("eq_discriminates")
+        f1, f2 = obj == other, other == obj
+        if f1 or f2:
+            ctx.fail("eq_discriminates", "%s compares equal (%s/%s) to a container that only %s" % (what, bool(f1), bool(f2), diff))
+
+
+_EQ_TICK = [0]
 
 
 def compare_atom(ctx, atom, mm, p, k=0, what="atom"):
